@@ -35,9 +35,10 @@ CLAIMS = {
          "partial spectrum with M): Hellmann-Feynman de = x^T (dA - e dM) x; the tangent of the vector solves the shifted system and its "
          "M-parallel part is fixed by the normalisation; the cotangents accumulated by symeig_torchfcn.backward (value, projected "
          "right-hand side + shifted solve + re-orthogonalisation, M-value, M-vector and parallel terms) satisfy <g, dx> + g_e de = "
-         "<accA, dA x> + <accM, dM x> for EVERY tangent. The executable model of the implicit backward (degeneracy map, _ortho, solve "
+         "<accA, dA x> + <accM, dM x> for EVERY tangent; the dense-path backward (full spectrum, distinct eigenvalues: "
+         "Y (F o Y^T G) Y^T + Y diag(g_e) Y^T, symmetrised) is the adjoint of the tangent of the eigendecomposition. The executable model of the implicit backward (degeneracy map, _ortho, solve "
          "as an oracle) and of the dense-path backward runs at binary64 / complex binary64 against autograd (2^-26).",
-    note="Partial: the conjugate (complex) case, the degenerate case (arXiv:2011.04366) and the dense-path formula are covered by the "
+    note="Partial: the conjugate (complex) case and the degenerate case (arXiv:2011.04366) are covered by the "
          "model correspondence and the oracle (torch.linalg.eigh / svd autograd; finite differences at exact degeneracies), not by a "
          "theorem. Trusted: Coq kernel + vm_compute + PrimFloat; autograd's pull-backs; solve (C01, C02).",
     technique="Coq/MathComp proof (adjoint of the eigenpair tangent under a derivation) + backward-formula model correspondence",
